@@ -86,7 +86,7 @@ let site_str (s : Faults.fsite) = match s with
   | Faults.SFlip n -> Printf.sprintf "flip:%d" (int_of_n n)
   | Faults.SStmt (n, Syntax.SCall (_, Syntax.ANil)) -> Printf.sprintf "stmt:%d:call_without_actuals" (int_of_n n)
   | Faults.SStmt (n, _) -> Printf.sprintf "stmt:%d:other_callee" (int_of_n n)
-  | Faults.SRootAt (n, _, k) -> Printf.sprintf "aggregate_element:%d:%d" (int_of_n n) (int_of_n k)
+  | Faults.SRootAt (n, _, c) -> Printf.sprintf "aggregate_element:%d:%d" (int_of_n n) (int_of_n (Sem.head_nid c))
 
 let coq_expr (e : Syntax.expr) : string = match e with
   | Syntax.EInt (i, v) -> Printf.sprintf "(EInt %d %d)" (int_of_n i) (int_of_n v)
